@@ -9,7 +9,7 @@ from checks.C15 import doc_mobility
 
 ID = "C16"
 GEN = ["flowprops"]
-PROPS = ["C16_storage.v"]
+PROPS = ["C16_storage.v", "C14_signatures.v"]
 
 
 def doc_storage(p, so, sw, phi, pvt):
